@@ -223,6 +223,25 @@ def alternatives(cfg: CFG, at: int, name: str, fi: Optional[FuncInfo] = None) ->
     return out
 
 
+def fold_tuples(expr: ast.AST) -> ast.AST:
+    """`(a, b) + (c, d)` -> `(a, b, c, d)`; `tuple((a, b))` -> `(a, b)` (a copy)."""
+    import copy
+
+    class T(ast.NodeTransformer):
+        def visit_BinOp(self, n):
+            self.generic_visit(n)
+            if isinstance(n.op, ast.Add) and isinstance(n.left, ast.Tuple) and isinstance(n.right, ast.Tuple):
+                return ast.Tuple(elts=n.left.elts + n.right.elts, ctx=ast.Load())
+            return n
+
+        def visit_Call(self, n):
+            self.generic_visit(n)
+            if isinstance(n.func, ast.Name) and n.func.id == "tuple" and len(n.args) == 1 and isinstance(n.args[0], (ast.Tuple, ast.List)):
+                return ast.Tuple(elts=n.args[0].elts, ctx=ast.Load())
+            return n
+    return T().visit(copy.deepcopy(expr))
+
+
 def resolved_text(cfg: CFG, at: int, expr: ast.AST, fi: Optional[FuncInfo] = None) -> str:
     from .model import norm
     e = resolved(cfg, at, expr)
